@@ -7,6 +7,7 @@ import (
 	"sort"
 	"strings"
 
+	pb "github.com/ipfs/boxo/ipld/unixfs/pb"
 	"github.com/ipfs/go-cid"
 	"github.com/ipfs/go-unixfsnode/data/builder"
 	dagpb "github.com/ipld/go-codec-dagpb"
@@ -109,8 +110,11 @@ func genTree(r *rand.Rand, depth int, root bool) *tnode {
 		return n
 	}
 	n := &tnode{Kind: "file", Width: 2 + r.Intn(2), Chunk: 3 + r.Intn(2)}
-	if r.Intn(3) == 0 {
+	switch r.Intn(6) {
+	case 0, 1:
 		n.Writer = refModeNames[r.Intn(len(refModeNames))]
+	case 2:
+		n.Writer = []string{"hand-pbRaw", "hand-pbFile", "hand-pbRaw-v0"}[r.Intn(3)]
 	}
 	switch r.Intn(5) {
 	case 0:
@@ -128,6 +132,18 @@ func genTree(r *rand.Rand, depth int, root bool) *tnode {
 func buildTree(st *store.Store, n *tnode, path []string) error {
 	n.Path = append([]string(nil), path...)
 	ls := st.LinkSystem(false)
+	if n.Kind == "file" && strings.HasPrefix(n.Writer, "hand-") {
+		o := handFileOpts{Width: n.Width, PBLeaves: true, LeafType: pb.Data_File, V0: strings.HasSuffix(n.Writer, "-v0")}
+		if strings.Contains(n.Writer, "pbRaw") {
+			o.LeafType = pb.Data_Raw
+		}
+		chunks := splitChunks(n.Content, n.Chunk)
+		if len(chunks) == 0 {
+			chunks = [][]byte{{}}
+		}
+		n.Cid, n.Size = handFile(st, chunks, o)
+		return nil
+	}
 	if n.Kind == "file" && n.Writer != "" {
 		c, sz, err := oracle.RefImport(st, bytes.NewReader(n.Content), fmt.Sprintf("size-%d", n.Chunk), n.Width, refModes[n.Writer])
 		if err != nil {
